@@ -1,6 +1,6 @@
 (* Prop_C12.v — property theorems for C12, and nothing else. *)
 From Dig Require Import Base Sig State Graph GraphProofs Register Resolve Run Spec Check
-  ErrTable Err ErrTableCheck P_Frame P_Reg P_Keys.
+  ErrTable Err ErrTableCheck P_Frame P_Reg P_Keys P_Once P_Term P_Refine.
 
 (* ---- C12: a scope accepts at most one decorator per key: Decorate is rejected
         exactly when the scope already decorates one of the keys, and then none
@@ -9,3 +9,13 @@ Theorem C12_decorate_rule_partial : forall st r s p, RegRel st r ->
   fst (decorate st s p) = if dec_conflict r s (di_sig p) then VErr err_dec_dup else VOk.
 Proof. exact P_Keys.decorate_err_iff. Qed.
 Print Assumptions C12_decorate_rule_partial.
+
+(* ---- C12: provenance part (every consumer receives what the spec prescribes:
+        nearest decorator's output, else nearest provider's, exact key) up to the
+        recorded known findings D12 / D13 ---- *)
+Theorem C12_prov_up_to_known_findings : forall cfg bt du h,
+  wf_scopes h = true -> wf_strict h = true -> P_Once.wf_fns h = true -> cfg_dry cfg = false ->
+  forall i c, In (i, c) (chk_prov bt h (map obs_of (run cfg (beh_of bt) du h))) ->
+  c = 112 \/ c = 132 \/ (c = 120 /\ has_opt h = true /\ has_dec h = true).
+Proof. exact P_Refine.prov_refines. Qed.
+Print Assumptions C12_prov_up_to_known_findings.
